@@ -146,6 +146,20 @@ claim("C03",
       "exhaustiveness / sibling-coverage comparison of switch dispatch chains and tables over the clang AST",
       "DESIGN.md section 3, C03")
 
+claim("C02",
+      "Partial: the optimiser's tables of belief about builtins and instructions. Peephole tables (builtin -> abstract op "
+      "rows have the builtin's type and the meaning of its C04 reference tree; every algebra cell that can materialise is "
+      "an identity of the commutative ring for integer types and IEEE-754-safe for float types), purity flags against an "
+      "effect summary of the runtime implementation over the -DFOAM_RTS call graph, and the tag sets of the two side-effect/"
+      "control-flow classifiers. A wrong cell/flag/tag makes some program's output depend on -Q, so each is a necessary "
+      "condition of C02; that the passes themselves preserve meaning on every program is not decided. Thirty float cells "
+      "of the deliberate fast-math table are recorded known findings (replayed).",
+      "Trusted: clang 14 AST; the hand-derived valid-result sets RING and IEEE in c02_opt_tables.py (derivations in "
+      "comments); the effect graph is cut at the allocator, assertion/bug reporting and program-ending routines, and I/O "
+      "under a DEBUG flag is discounted; one frozen diagnostic print.",
+      "table lint against a reference algebra + interprocedural effect summary (call-graph fixpoint) + switch tag-set check",
+      "DESIGN.md section 3, C02")
+
 PENDING_REASON = "check designed in DESIGN.md but not yet built in this tree; not claimed until it runs"
 
 
